@@ -50,10 +50,10 @@ def hx(s):
     return s.hex() or "-"
 
 
-PATHS = ["/pkg.Svc/Get", "/pkg.Svc/Put", "/pkg.Other/Get", "/x/secret", "/x/other", "", "/PKG.SVC/GET", "/pkg.Svc/GetAll"]
+PATHS = ["/pkg.Svc/Get", "/pkg.Svc/Put", "/pkg.Other/Get", "/x/secret", "/x/other", "", "/PKG.SVC/GET", "/pkg.Svc/GetAll", "*a", "a*"]
 HNAMES = ["x-a", "x-b", "x-num", ":path", ":method", "te", "X-A", "TE", "grpc-x", "host"]
 HVALS = ["foo", "foobar", "bar", "", "42", "-7", "+5", "007", "9223372036854775807", "9223372036854775808",
-         "-9223372036854775808", "-9223372036854775809", "1,2", "a\nb", "FOO", "fooBAR", "POST", "4 2", "+", "-", "1_0"]
+         "-9223372036854775808", "-9223372036854775809", "1,2", "a\nb", "FOO", "fooBAR", "POST", "4 2", "+", "-", "1_0", "*a", "a*", "*"]
 V4 = [bytes([10, 0, 0, 1]), bytes([10, 0, 1, 1]), bytes([192, 168, 1, 7]), bytes([127, 0, 0, 1]), bytes([0, 0, 0, 0]),
       bytes([255, 255, 255, 255]), bytes([10, 128, 0, 1])]
 V6 = [bytes(15) + b"\x01", bytes.fromhex("20010db8000000000000000000000001"), bytes.fromhex("20010db8000100000000000000000005"),
@@ -267,8 +267,8 @@ def glob(rng, pool):
         return s[:rng.randrange(0, len(s) + 1)] + "*"
     if r < 0.45:
         return "*" + s[rng.randrange(0, len(s) + 1):]
-    if r < 0.5:
-        return rng.choice(["**", "*a*", ""])
+    if r < 0.55:
+        return rng.choice(["**", "*a*", "", "*a", "a*"])
     return s
 
 
@@ -316,8 +316,8 @@ def f4_witness():
 
 
 def gen(rng, tier):
-    n_chain = {"quick": 6000, "thorough": 150000, "search": 40000}[tier]
-    n_sdk = {"quick": 3000, "thorough": 75000, "search": 40000}[tier]
+    n_chain = {"quick": 4000, "thorough": 60000, "search": 40000}[tier]
+    n_sdk = {"quick": 2000, "thorough": 30000, "search": 40000}[tier]
     depth = {"quick": 5, "thorough": 7, "search": 6}[tier]
     yield f4_witness()
     for i in range(n_chain):
